@@ -339,6 +339,7 @@ func (n *Node) run() {
 
 outer:
 	for {
+		verifPoint("loop.select", nil)
 		select {
 		case ch := <-n.chNewChannel:
 			n.channels[ch] = struct{}{}
@@ -370,6 +371,7 @@ outer:
 		}
 	}
 
+	verifPoint("epi.hb", nil)
 	if n.nodeHeartbeat != nil {
 		n.nodeHeartbeat.close()
 	}
@@ -378,16 +380,20 @@ outer:
 		n.nodeStreamRequest.close()
 	}
 
+	verifPoint("epi.providers", nil)
 	for ca := range n.channelProviders {
 		ca.close()
 	}
 
+	verifPoint("epi.channels", nil)
 	for ch := range n.channels {
 		ch.close()
 	}
 
+	verifPoint("epi.wait", nil)
 	n.wg.Wait()
 
+	verifPoint("epi.closeEvents", nil)
 	close(n.chEvent)
 }
 
